@@ -6,6 +6,7 @@ import (
 	"strconv"
 	"strings"
 
+	"github.com/aquilax/hranoprovod-cli/v3/verifsim"
 	"pgregory.net/rapid"
 )
 
@@ -275,7 +276,7 @@ func genMut(t *rapid.T, label string) []MutC08 {
 	for i := 0; i < n; i++ {
 		l := fmt.Sprintf("%s%d", label, i)
 		m := MutC08{
-			Op:  rapid.SampledFrom([]string{"insert", "truncate", "flip", "delete", "number", "dropsep", "prepend", "empty", "longline", "commentsonly"}).Draw(t, l+"_op"),
+			Op:  rapid.SampledFrom([]string{"insert", "truncate", "flip", "delete", "number", "dropsep", "prepend", "empty", "longline", "commentsonly", "random"}).Draw(t, l+"_op"),
 			Pos: rapid.IntRange(0, 1000).Draw(t, l+"_pos"),
 		}
 		m.Data = rapid.SampledFrom(garbagePool).Draw(t, l+"_data")
@@ -330,6 +331,20 @@ func applyMut(s string, ms []MutC08) string {
 			s = s[:at] + "\n  " + strings.Repeat("L", 70000) + ": 1\n" + s[at:]
 		case "commentsonly":
 			s = "# only a comment\n#\n"
+		case "random": // arbitrary bytes
+			r := verifsim.NewRng(uint64(m.Pos)*2654435761 + uint64(len(m.Data)))
+			b := make([]byte, m.Pos%257)
+			for i := range b {
+				switch x := r.Intn(10); {
+				case x < 3:
+					b[i] = "\n\t :-#\""[r.Intn(7)]
+				case x < 6:
+					b[i] = byte('0' + r.Intn(10))
+				default:
+					b[i] = byte(r.Intn(256))
+				}
+			}
+			s = string(b)
 		}
 	}
 	return s
